@@ -158,6 +158,8 @@ prop("C17", "Calls get the written arguments; modifier chains and coalesce evalu
     ("arguments_exact", "collect_args_exact", "the vector handed to a function is the list of the written arguments' values, in order, each evaluated on its own; evaluation changes nothing but scratch cells"),
     ("argument_value_depends_on_state_only", "arg_value_stable", "an argument's value depends on variables, objects and counters only"),
     ("coalesce_first_present", "coalesce_first_present", "a coalesce source evaluates to the first listed key that is present and not null"),
+    ("modifier_chain_runs_left_to_right", "run_mods_is_the_chain", "`src|m1(..)|m2(..)` over user-registered modifiers: the value of the chain is the left-to-right fold in which each modifier receives the previous stage's result and its own written arguments evaluated at call time (call numbers n, n+1, ...)"),
+    ("chain_depends_on_state_only", "chain_stable", "and that fold depends on variables, objects and counters only"),
     ("callback_receives_arguments", "follow_callback", "a callback is invoked with that vector"),
 ])
 
